@@ -53,13 +53,14 @@ package store
 //@ func dataSet.TruncateGap
 //@   arith int
 //@   properties C08
-//@   replay store_index
+//@   replay store_index store_snapshotGap
 //@   requires wf: segsWF(ds) && ds.aofMap != nil
 //@   modifies ds.aofSegs, ds.rdb, ds.aofMap, heap
 //@   ensures one_contiguous_range_is_kept: segsWF(ds) && contiguous(ds)
 //@   ensures newest_segment_is_kept: len(ds.aofSegs) <= old(len(ds.aofSegs)) && (old(len(ds.aofSegs)) > 0 ==> len(ds.aofSegs) > 0 && ds.aofSegs[len(ds.aofSegs) - 1] == old(ds.aofSegs[len(ds.aofSegs) - 1]))
 //@   ensures snapshot_before_a_hole_is_dropped: len(ds.aofSegs) < old(len(ds.aofSegs)) ==> ds.rdb == nil
-//@   ensures snapshot_kept_otherwise: len(ds.aofSegs) == old(len(ds.aofSegs)) ==> ds.rdb == old(ds.rdb)
+//@   ensures a_snapshot_is_kept_only_if_the_log_continues_it: ds.rdb != nil && len(ds.aofSegs) > 0 ==> ds.aofSegs[0].left <= ds.rdb.left
+//@   ensures snapshot_kept_otherwise: len(ds.aofSegs) == old(len(ds.aofSegs)) && old(ds.rdb != nil && len(ds.aofSegs) > 0 ==> ds.aofSegs[0].left <= ds.rdb.left) ==> ds.rdb == old(ds.rdb)
 //@   loop 1:
 //@     invariant scanned_suffix_is_contiguous: 0 - 1 <= i && i < len(ds.aofSegs) && (len(ds.aofSegs) > 0 ==> 0 <= i) && ds.aofSegs == old(ds.aofSegs) && ds.rdb == old(ds.rdb) && segsWF(ds) && (forall k int :: i < k && k < len(ds.aofSegs) ==> ds.aofSegs[k].left == ds.aofSegs[k - 1].left + ds.aofSegs[k - 1].rtSize.v)
 
